@@ -120,4 +120,18 @@ theorem loop_zero_never_gives_up (max : Nat) : ∀ k : Nat,
     have ih := loop_zero_never_gives_up max k
     simp [List.replicate_succ, loop, shl1, ih]
 
+/-- the loop gives up only on accept(2) failures: every call it made failed (for every outcome list and start value) -/
+theorem loop_gaveUp_prefix_fails (max : Nat) : ∀ (outs : List Bool) (b : Nat),
+    (loop max b outs).1 = .gaveUp →
+    (loop max b outs).2.1 ≤ outs.length ∧ outs.take (loop max b outs).2.1 = List.replicate (loop max b outs).2.1 false
+  | [], b, h => by simp [loop] at h
+  | true :: _, b, h => by simp [loop] at h
+  | false :: rest, b, h => by
+    by_cases hb : b > max
+    · simp [loop, hb]
+    · simp only [loop, hb, if_false] at h ⊢
+      have ih := loop_gaveUp_prefix_fails max rest (shl1 b) h
+      refine ⟨by simp; exact ih.1, ?_⟩
+      simp [List.take_succ_cons, List.replicate_succ, ih.2]
+
 end AcceptBackoff
